@@ -19,6 +19,16 @@ CKEY = {  # ErrorContext attribute -> Coq constructor of Base/IssueTypes.ckey
     "SCHEMA_ATTRIBUTE": "CAttr",
 }
 SUFFIX_PREFIX = "  Problem spans string indexes: "
+# sort_issues._get_keys as of fix commit 2e53521 (ast.unparse form)
+GET_KEYS_SRC = """def _get_keys(d):
+    result = []
+    for key in default_sort_list:
+        if key in int_sort_list:
+            result.append(d.get(key, -1))
+        else:
+            value = d.get(key, '')
+            result.append((0, value) if isinstance(value, str) else (1, value))
+    return tuple(result)"""
 
 
 class TieBroken(Exception):
@@ -68,6 +78,38 @@ def _names_used(fn):
         if isinstance(n, ast.Name):
             used.add(n.id)
     return used
+
+
+def _lit_len(node, env):
+    """Lower bound of the number of literal characters of a message expression."""
+    if isinstance(node, ast.Constant) and isinstance(node.value, str):
+        return len(node.value)
+    if isinstance(node, ast.JoinedStr):
+        return sum(len(v.value) for v in node.values if isinstance(v, ast.Constant) and isinstance(v.value, str))
+    if isinstance(node, ast.BinOp) and isinstance(node.op, ast.Add):
+        return _lit_len(node.left, env) + _lit_len(node.right, env)
+    if isinstance(node, ast.IfExp):
+        return min(_lit_len(node.body, env), _lit_len(node.orelse, env))
+    if isinstance(node, ast.Name) and node.id in env:
+        return env[node.id]
+    return 0
+
+
+def message_min_len(fn, where):
+    """Every return of a message function contains at least this many literal characters (0 = unknown shape;
+    the Coq obligation C12_message_literal_nonempty then fails)."""
+    env = {}
+    for st in ast.walk(fn):
+        if isinstance(st, ast.Assign) and len(st.targets) == 1 and isinstance(st.targets[0], ast.Name):
+            v = _lit_len(st.value, env)
+            n = st.targets[0].id
+            env[n] = min(env[n], v) if n in env else v
+        elif isinstance(st, ast.AugAssign) and isinstance(st.target, ast.Name):
+            env[st.target.id] = env.get(st.target.id, 0)      # "+=" only adds text
+    rets = [r for r in ast.walk(fn) if isinstance(r, ast.Return)]
+    if not rets or any(r.value is None for r in rets):
+        raise TieBroken(f"{where}: message function without a returned text")
+    return min(_lit_len(r.value, env) for r in rets)
 
 
 def read_registrations(rel, consts, allow_undecorated=False):
@@ -135,6 +177,7 @@ def read_registrations(rel, consts, allow_undecorated=False):
             raise TieBroken(f"{where}: has_sub_tag error without a problem_tag parameter")
         rows.append({"kind": kind, "code": code, "sev": sev, "tag": is_tag, "sub": sub,
                      "quotes_tag": q_tag, "quotes_sub": q_sub, "fn": fn.name, "params": params,
+                     "msg_min": message_min_len(fn, where),
                      "where": where})
     return rows
 
@@ -165,23 +208,27 @@ def read_reporter(consts):
             sort_fn = node
     if sort_fn is None:
         raise TieBroken("error_reporter.py: sort_issues not found")
-    defaults = []
-    for n in ast.walk(sort_fn):
-        if isinstance(n, ast.Call) and isinstance(n.func, ast.Attribute) and n.func.attr == "get" and len(n.args) == 2:
-            dv = n.args[1]
-            if isinstance(dv, ast.UnaryOp) and isinstance(dv.op, ast.USub) and isinstance(dv.operand, ast.Constant):
-                defaults.append(-dv.operand.value)
-            elif isinstance(dv, ast.Constant):
-                defaults.append(dv.value)
-            else:
-                raise TieBroken("error_reporter.py: sort_issues default not literal")
-    if defaults != [-1, ""]:
-        raise TieBroken(f"error_reporter.py: sort_issues defaults changed: {defaults}")
     if SUFFIX_PREFIX + "{new_start}, {new_end}" not in src:
         raise TieBroken("error_reporter.py: location suffix literal changed")
     # push_error_context None defaults: 0 for int keys, "" otherwise  (textual guard)
     regs = read_registrations("hed/errors/error_reporter.py", consts, allow_undecorated=True)
     return lists, regs
+
+
+def check_sort_shape():
+    """The shape of sort_issues._get_keys is modelled by hand (Model/Issues.v get_key1): any edit fails closed."""
+    tree = _src("hed/errors/error_reporter.py")
+    sort_fn = next((n for n in tree.body if isinstance(n, ast.FunctionDef) and n.name == "sort_issues"), None)
+    if sort_fn is None:
+        raise TieBroken("error_reporter.py: sort_issues not found")
+    inner = [m for m in sort_fn.body if isinstance(m, ast.FunctionDef)]
+    rest = [ast.unparse(m) for m in sort_fn.body if not isinstance(m, ast.FunctionDef)
+            and not (isinstance(m, ast.Expr) and isinstance(m.value, ast.Constant))]
+    if len(inner) != 1 or ast.unparse(inner[0]) != GET_KEYS_SRC:
+        raise TieBroken("error_reporter.py: sort_issues._get_keys changed (modelled shape: int keys raw with "
+                        "default -1, other keys (0, text) / (1, number) with default '')")
+    if rest != ["issues = sorted(issues, key=_get_keys, reverse=reverse)", "return issues"]:
+        raise TieBroken(f"error_reporter.py: body of sort_issues changed: {rest}")
 
 
 def coq_str(s):
@@ -235,10 +282,16 @@ def render():
                     f"{coq_bool(r['sub'])} {coq_bool(r['quotes_tag'])} {coq_bool(r['quotes_sub'])}")
     out.append(";\n".join(body))
     out.append("].")
+    out += ["",
+            "(* kind -> number of literal characters every text returned by its message function contains *)",
+            "Definition kind_msg_min : list (str * nat) := ["]
+    out.append(";\n".join(f"  ({coq_str(r['kind'])}, {r['msg_min']})  (* {r['fn']} *)" for r in rows))
+    out.append("].")
     return "\n".join(out) + "\n", rows, lists, consts
 
 
 def translate():
+    check_sort_shape()
     text, rows, lists, consts = render()
     C.write_if_changed(os.path.join(C.COQ, "Gen", "ErrorCodes.v"), text)
     return rows, lists, consts
